@@ -257,16 +257,33 @@ func (fr *frame) contractCall(v ssa.Value, callee *ssa.Function, ct *Contract, a
 			u.emit("(declare-fun %s (%s) %s)", sym, u.mode.idxSort(), u.mode.idxSort())
 			post.ghost[g] = sym
 			u.ghostSyms = append(u.ghostSyms, sym)
+			if u.ghostBlock == nil {
+				u.ghostBlock = map[string]*ssa.BasicBlock{}
+			}
+			u.ghostBlock[sym] = fr.blk
 		}
 	}
 	for k, en := range ct.Ensures {
-		t, err := post.boolExpr(en.E)
-		if err != nil {
+		if _, err := post.boolExpr(en.E); err != nil {
 			u.bindingError(fmt.Sprintf("postcondition %d of %s: %v", k+1, ct.Key, err))
 			continue
 		}
-		fr.assume(t)
-		post.recordHyps(en.E, fr.cur)
+		guard := fr.cur
+		for _, cj := range splitConj(en.E) {
+			t, err := post.boolExpr(cj)
+			if err != nil {
+				continue
+			}
+			if isQuantConj(cj) {
+				// quantified facts are asserted on their own line (guarded by the path condition at
+				// the call) so that the instance-only variant of an obligation can leave them out
+				u.emit("(assert (=> " + guard + " " + t + "))")
+				u.quantHypLines[len(u.lines)-1] = true
+			} else {
+				fr.assume(t)
+			}
+		}
+		post.recordHyps(en.E, guard)
 	}
 	if ct.Trusted {
 		u.note("trusted contract used: %s", ct.Key)
@@ -634,13 +651,26 @@ func (fr *frame) contractCallSig(v ssa.Value, ct *Contract, sig *types.Signature
 	}
 	post := &specEnv{u: u, st: fr.st, old: pre, vars: env.vars, pkgPath: ct.PkgPath, results: rs, resultSig: sig}
 	for k, en := range ct.Ensures {
-		t, err := post.boolExpr(en.E)
-		if err != nil {
+		if _, err := post.boolExpr(en.E); err != nil {
 			u.bindingError(fmt.Sprintf("postcondition %d of %s: %v", k+1, ct.Key, err))
 			continue
 		}
-		fr.assume(t)
-		post.recordHyps(en.E, fr.cur)
+		guard := fr.cur
+		for _, cj := range splitConj(en.E) {
+			t, err := post.boolExpr(cj)
+			if err != nil {
+				continue
+			}
+			if isQuantConj(cj) {
+				// quantified facts are asserted on their own line (guarded by the path condition at
+				// the call) so that the instance-only variant of an obligation can leave them out
+				u.emit("(assert (=> " + guard + " " + t + "))")
+				u.quantHypLines[len(u.lines)-1] = true
+			} else {
+				fr.assume(t)
+			}
+		}
+		post.recordHyps(en.E, guard)
 	}
 	u.note("assumed contract used: %s", ct.Key)
 	return resultVal(v, rs)
@@ -648,11 +678,15 @@ func (fr *frame) contractCallSig(v ssa.Value, ct *Contract, sig *types.Signature
 
 // dynamicCall: call through a func value that is not statically known
 func (fr *frame) dynamicCall(v ssa.Value, c *ssa.CallCommon, fv Val) Val {
-	u := fr.u
 	var args []Val
 	for _, a := range c.Args {
 		args = append(args, fr.val(a))
 	}
+	return fr.dynamicCallVals(v, c, fv, args)
+}
+
+func (fr *frame) dynamicCallVals(v ssa.Value, c *ssa.CallCommon, fv Val, args []Val) Val {
+	u := fr.u
 	sig := c.Value.Type().Underlying().(*types.Signature)
 	// callback clause of the enclosing top-level contract, by parameter name
 	if p, ok := c.Value.(*ssa.Parameter); ok && fr.contract != nil {
@@ -691,6 +725,25 @@ func (fr *frame) dynamicCall(v ssa.Value, c *ssa.CallCommon, fv Val) Val {
 			}
 			u.note("%s: callback %s assumed to satisfy its callback clause and to leave the modelled heap unchanged", fr.fn.Name(), p.Name())
 			return resultVal(v, rs)
+		}
+	}
+	// function values declared opaque in the contract (e.g. a context cancel function)
+	if fr.contract != nil {
+		for _, d := range fr.dbg {
+			for _, b := range d {
+				if b.v == c.Value {
+					for _, op := range fr.contract.Opaque {
+						if op == b.name {
+							u.note("%s: call of the function value %s treated as having no effect on modelled state (declared opaque)", fr.fn.Name(), op)
+							var rs []Val
+							for i := 0; i < sig.Results().Len(); i++ {
+								rs = append(rs, fr.freshOfType("opq", sig.Results().At(i).Type()))
+							}
+							return resultVal(v, rs)
+						}
+					}
+				}
+			}
 		}
 	}
 	fr.havocAll("call through unknown function value " + c.Value.Name())
